@@ -44,6 +44,9 @@ func (fx *Fx) isMultiCall(call *ast.CallExpr) bool {
 	if _, ok := ast.Unparen(call.Fun).(*ast.CallExpr); ok {
 		return true // iterator application f(...)(yield)
 	}
+	if fd, _ := fx.inlineDeclOf(call); fd != nil {
+		return true
+	}
 	return false
 }
 
@@ -101,16 +104,32 @@ func (fx *Fx) inlineBody(st *State, pkg *Pkg, ft *ast.FuncType, body *ast.BlockS
 	}
 	fx.depth++
 	savedPkg, savedResults := fx.pkg, fx.results
-	savedLoopOrd, savedSpec := fx.loopOrd, fx.spec
+	savedLoopOrd, savedSpec, savedInl := fx.loopOrd, fx.spec, fx.inlineName
 	savedNames := map[string]types.Object{}
 	for k, v := range st.names {
 		savedNames[k] = v
 	}
 	fx.pkg = pkg
 	if fd != nil {
-		fx.bindParams(st, fd, recv, args)
+		if fd.litParams {
+			i := 0
+			for _, f := range ft.Params.List {
+				for _, n := range f.Names {
+					if o := info.Defs[n]; o != nil && i < len(args) {
+						fx.declare(st, o, args[i])
+					}
+					i++
+				}
+				if len(f.Names) == 0 {
+					i++
+				}
+			}
+		} else {
+			fx.bindParams(st, fd, recv, args)
+		}
 		fx.loopOrd = fx.v.loopOrdinals(fd.decl)
 		fx.spec = fx.v.contracts.Funcs[fx.v.funcKey(fd.obj)]
+		fx.inlineName = fd.decl.Name.Name
 	} else {
 		i := 0
 		for _, f := range ft.Params.List {
@@ -196,7 +215,7 @@ func (fx *Fx) inlineBody(st *State, pkg *Pkg, ft *ast.FuncType, body *ast.BlockS
 		}
 	}
 	fx.pkg, fx.results = savedPkg, savedResults
-	fx.loopOrd, fx.spec = savedLoopOrd, savedSpec
+	fx.loopOrd, fx.spec, fx.inlineName = savedLoopOrd, savedSpec, savedInl
 	fx.depth--
 	return res
 }
